@@ -144,11 +144,19 @@ class LangGen:
         fcount = 0
         for i in range(r.randint(1, 5)):
             la, ra = r.choice(self.names), r.choice(self.names)
-            nm = f'Assoc{i}'
+            # association (class) names in several styles: a YAML file lists the keys of an association entry
+            # alphabetically, so a lower-case type name can sort after the optional 'extras' key
+            nm = r.choices(['Assoc', 'link', 'conn', 'zone'], [6, 2, 1, 1])[0] + str(i)
             if self.assocs and r.random() < self.k['dup_assoc_names']:
                 nm = r.choice(self.assocs)['name']
-                if any(a['name'] == nm and {a['leftAsset'], a['rightAsset']} == {la, ra} for a in self.assocs):
-                    nm = f'Assoc{i}'
+                # same name between the same two asset types: allowed in the opposite orientation (two classes
+                # name_A_B and name_B_A); in the same orientation the two are merged (recorded finding KF-C15-1)
+                if r.random() < 0.5:
+                    prev = r.choice([a for a in self.assocs if a['name'] == nm])
+                    if prev['leftAsset'] != prev['rightAsset']: la, ra = prev['rightAsset'], prev['leftAsset']
+                if any(a['name'] == nm and (a['leftAsset'], a['rightAsset']) == (la, ra) for a in self.assocs) or \
+                        (la == ra and any(a['name'] == nm and {a['leftAsset'], a['rightAsset']} == {la} for a in self.assocs)):
+                    nm = f'Assoc{i}x'
             lf, rf = f'f{fcount}', f'f{fcount + 1}'; fcount += 2
             if self.assocs and r.random() < self.k['reuse_fields']:
                 # MAL only requires a field name to be unique among the fields one asset hierarchy owns: the owner of the
@@ -368,11 +376,15 @@ def gen_model(rnd: random.Random, spec, n_assets=None, allow_abstract=False, col
 # ------------------------------------------------------------------ real objects
 def build_lang(spec):
     from maltoolbox.language import LanguageGraph, LanguageClassesFactory
+    from . import common as _c
+    _c.set_current(spec=spec, inst=None)
     lg = LanguageGraph(copy.deepcopy(spec))
     return lg, LanguageClassesFactory(lg)
 
 def build_model(factory, inst, name='m'):
     from maltoolbox.model import Model
+    from . import common as _c
+    _c.set_current(inst=inst)
     m = Model(name, factory)
     byid = {}
     for a in inst['assets']:
